@@ -590,6 +590,15 @@ def run_cross(c):
     c['o9'] = o
 
 
+def case_codes(c):
+    """float fitness -> the integer the model sees: the value itself for integer scripts, its rank code otherwise"""
+    if 'ffits' in c:
+        return fit_codes(c['ffits'])
+    d = {float(f): int(f) for f in c['fits']}
+    d[0.0] = 0
+    return d
+
+
 def fit_codes(floats):
     """Order- and equality-preserving integer codes of float fitnesses, with +-0.0 -> 0 (what `==`, `<`, min,
     argmax and the literal 0 of `fitness[worst] = 0` can observe)."""
@@ -618,7 +627,7 @@ def run_repro(c):
     n = len(c['fits'])
     sp = make_space(n, c['nt'], [0], 1, 1)
     real = c.get('ffits', c['fits'])
-    code = fit_codes(real)
+    code = case_codes(c)
     set_population(sp, c['shapes'], real)
     gp = GP(hyperparams={'p_reproduction': c['p']})
     old_t, old_a = list(sp.trees), list(sp.agents)
@@ -700,7 +709,7 @@ def run_gp(c):
     """A whole scripted GP.run: snapshots at every hook and at return."""
     s = Script(c['ds'], c['picks'])
     fits = list(c.get('ffits', c['fits']))
-    code = fit_codes(fits)
+    code = case_codes(c)
     used = [0]
 
     def objective(x):
